@@ -185,6 +185,6 @@ func SetResidue(mode int, seed uint64) {
 }
 
 // ZoneCache returns a snapshot of the time-zone cache.
-func ZoneCache() map[int32]string { return exif2.VerifZoneCache() }
+func ZoneCache() map[string]string { return exif2.VerifZoneCache() }
 
 const plausibleBytes = "II*\x00\x08\x00\x00\x00\xff\xd8\xff\xe1Exif\x00\x00MM\x00*ftypcrx <x:xmpmeta "
